@@ -2,6 +2,7 @@
 (* Exhaustive comparison of the implementation-shaped operators of Search
    with the declarative reference on bounded domains.
 
+   Part = "all" the three parts below in one run
    Part = "a"   every run-id expression of <= MaxLen items (40 items; 65 641
                 expressions for MaxLen = 3):   Den(Scrub(e)) = Den(e)
    Part = "b1"  the per-entry predicate: every single-entry database of the
@@ -56,9 +57,9 @@ B1Keys == {x \in Grid : x.v = "v1" /\ (Quick => x.run \in {2, 3}) /\ (<<x.t, x.k
    root has one successor per node, every node is expanded by whichever worker takes it.
    The sets are parameterised so that TLC does not evaluate them for the other Parts. *)
 Nodes(p) ==
-    CASE p = "a"  -> {[kind |-> "node", pre |-> e] : e \in Exprs(1)}
-      [] p = "b1" -> {[kind |-> "node", db |-> {x}, bump |-> b, r |-> r] : x \in B1Keys, b \in (IF Quick THEN {TRUE} ELSE BOOLEAN), r \in RunChoices}
-      [] p = "b2" -> {[kind |-> "node", db |-> d, bump |-> b] : d \in SmallDbs \cup BigDbs, b \in BOOLEAN}
+    CASE p = "a"  -> {[kind |-> "a_", pre |-> e] : e \in Exprs(1)}
+      [] p = "b1" -> {[kind |-> "b1", db |-> {x}, bump |-> b, r |-> r] : x \in B1Keys, b \in (IF Quick THEN {TRUE} ELSE BOOLEAN), r \in RunChoices}
+      [] p = "b2" -> {[kind |-> "b2", db |-> d, bump |-> b] : d \in SmallDbs \cup BigDbs, b \in BOOLEAN}
 Leaves(p, n) ==
     CASE p = "a"  -> IF n.pre = <<>> THEN {[kind |-> "a", e |-> <<>>]}
                      ELSE {[kind |-> "a", e |-> n.pre \o t] : t \in Exprs(MaxLen - 1)}
@@ -66,30 +67,33 @@ Leaves(p, n) ==
                          tg \in NameChoices("tg"), tk \in NameChoices("tk"), al \in NameChoices("al"), sv \in NameChoices("sv")}
       [] p = "b2" -> {[kind |-> "b", db |-> n.db, bump |-> n.bump, q |-> q] : q \in SomeQueries}
 
+Parts == IF Part = "all" THEN {"a", "b1", "b2"} ELSE {Part}
 Init == c = [kind |-> "root"]
-Next == \/ c.kind = "root" /\ c' \in Nodes(Part)
-        \/ c.kind = "node" /\ c' \in Leaves(Part, c)
+Next == \/ c.kind = "root" /\ \E p \in Parts : c' \in Nodes(p)
+        \/ c.kind \in {"a_", "b1", "b2"} /\ c' \in Leaves(IF c.kind = "a_" THEN "a" ELSE c.kind, c)
 Spec == Init /\ [][Next]_vars
 
 -----------------------------------------------------------------------------
-Tabs == TablesOf(SetToSeq(c.db), c.bump)
-M    == Match(c.db, c.q)
-
+(* LET: the index tables, the key list and the match set are computed once per state *)
 C17_Scrub == c.kind = "a" => ScrubOK(c.e, Scrub(c.e))
 
 C17_Find == c.kind = "b" =>
-    \A index \in PageIndex, limit \in PageLimit :
-        LET r == ImplFind(Tabs, c.q, index, limit) IN FindOK(M, index, limit, r.items, r.total)
+    LET T   == TablesOf(SetToSeq(c.db), c.bump)
+        pks == ImplKeys(T, c.q)
+        M   == Match(c.db, c.q)
+    IN \A index \in PageIndex, limit \in PageLimit :
+          LET r == ImplPage(T, pks, index, limit) IN FindOK(M, index, limit, r.items, r.total)
 
 C17_Pages == c.kind = "b" =>
-    \A L \in PageLimit \ {NOLIMIT} :
-        PagesOK(M, L, [i \in 1..NPages(M, L) |-> ImplFind(Tabs, c.q, (i - 1) * L, L).items])
+    LET T   == TablesOf(SetToSeq(c.db), c.bump)
+        pks == ImplKeys(T, c.q)
+        M   == Match(c.db, c.q)
+    IN \A L \in PageLimit \ {NOLIMIT} :
+          PagesOK(M, L, [i \in 1..NPages(M, L) |-> ImplPage(T, pks, (i - 1) * L, L).items])
 
 C17_Facet == c.kind = "b" =>
-    \A d \in Dims : c.q[d] = {} => FacetOK(M, d, ImplFacet(Tabs, c.q, d))
-
-(* part b1 needs only the first pages (a single entry) *)
-C17_Find1 == c.kind = "b" =>
-    \A index \in {0, 1}, limit \in {NOLIMIT, 1} :
-        LET r == ImplFind(Tabs, c.q, index, limit) IN FindOK(M, index, limit, r.items, r.total)
+    LET T   == TablesOf(SetToSeq(c.db), c.bump)
+        pks == ImplKeys(T, c.q)
+        M   == Match(c.db, c.q)
+    IN \A d \in Dims : c.q[d] = {} => FacetOK(M, d, ImplFacetOf(T, pks, d))
 =============================================================================
